@@ -85,8 +85,24 @@ def run_one(mod, run_seed, replay=None, lenient=False, keep_trace=False, case=No
     except core.SimAbort:
         res.update(status="error", message="SimAbort escaped")
     except Exception as e:
-        res.update(status="error", message="harness exception: %r" % (e,),
-                   traceback=traceback.format_exc())
+        # An exception that escapes the scenario from INSIDE paramiko code (innermost frame under the tree under
+        # test) means the check's honest workload broke there: on the unchanged tree this never happens (it would
+        # be exit 2 just the same), on a changed tree it is how a change typically shows when no oracle was reached.
+        tb = e.__traceback__
+        last = None
+        while tb is not None:
+            last = tb
+            tb = tb.tb_next
+        fn = last.tb_frame.f_code.co_filename if last is not None else ""
+        if "/paramiko/" in fn and "/verif/" not in fn:
+            where = "%s:%s" % (fn.rsplit("/", 1)[-1], last.tb_frame.f_code.co_name)
+            res.update(status="violation",
+                       fingerprint=[getattr(mod, "PROPERTY", "?"), "workload-broke-inside-paramiko", type(e).__name__, where],
+                       message="the check's workload raised %r from %s (no oracle was reached)" % (e, where),
+                       details={"traceback": traceback.format_exc()[-1500:]})
+        else:
+            res.update(status="error", message="harness exception: %r" % (e,),
+                       traceback=traceback.format_exc())
     finally:
         if gc_was:
             gc.enable()
